@@ -452,6 +452,24 @@ func runC09(ctx *Ctx) {
 			}
 		}
 	}
+	// a map entry whose value is a nil message: present for Has, Get, Len and Range alike
+	for _, t := range ctx.types() {
+		fds := t.Desc.Fields()
+		for i := 0; i < fds.Len(); i++ {
+			fd := fds.Get(i)
+			if !fd.IsMap() || fd.MapValue().Message() == nil {
+				continue
+			}
+			c := &Case{Sub: "nilmapvalue", Type: string(t.Name), Args: map[string]string{"field": fmt.Sprint(fd.Number())}}
+			ctx.Eval(1)
+			if err := safely(func() error { return replayC09(ctx, c) }); err != nil {
+				ctx.Violation(c, err.Error())
+				ctx.T.Fail()
+			} else {
+				ctx.Nontrivial(string(t.Name), "nilmapvalue", string(fd.Name()))
+			}
+		}
+	}
 	ctx.SetExhaustive(true)
 	ctx.Note("the (source x field x operation) matrix is enumerated completely for every type; the rapid arm below samples populated parents")
 	n := ctx.N(1500, 10000)
@@ -497,6 +515,36 @@ func replayC09(ctx *Ctx, c *Case) error {
 		}
 		if err := emptyBattery(srcs[i].m, func(string) {}); err != nil {
 			return fmt.Errorf("%s of %s: %v", srcs[i].how, t.Name, err)
+		}
+		return nil
+	case "nilmapvalue":
+		fd := t.Desc.Fields().ByNumber(protoreflect.FieldNumber(c.argInt("field")))
+		if fd == nil || !fd.IsMap() {
+			return fmt.Errorf("HARNESS: no such map field")
+		}
+		mk := func() proto.Message {
+			p := t.New()
+			p.ProtoReflect().Mutable(fd).Map().Mutable(fd.MapKey().Default().MapKey())
+			for _, s := range model.NilSites(p) {
+				s.Apply()
+			}
+			return p
+		}
+		p, q := mk(), mk()
+		k := fd.MapKey().Default().MapKey()
+		for _, side := range []struct {
+			name string
+			mp   protoreflect.Map
+		}{{"generated reflection", p.ProtoReflect().Get(fd).Map()}, {"protoimpl over the same struct", model.ImplOf(p).Get(fd).Map()}} {
+			n := 0
+			side.mp.Range(func(protoreflect.MapKey, protoreflect.Value) bool { n++; return true })
+			v := side.mp.Get(k)
+			if side.mp.Len() != 1 || n != 1 || !side.mp.Has(k) || !v.IsValid() || v.Message().IsValid() {
+				return fmt.Errorf("map %s holding a nil message value, read through %s: Len=%d Range=%d Has=%v Get.IsValid=%v (want 1, 1, true, true and an empty read-only message)", fd.Name(), side.name, side.mp.Len(), n, side.mp.Has(k), v.IsValid())
+			}
+		}
+		if !proto.Equal(p, q) {
+			return fmt.Errorf("two identical messages whose map %s holds a nil message value are not proto.Equal", fd.Name())
 		}
 		return nil
 	case "parent":
